@@ -56,7 +56,7 @@ class NG:
         r = self.rnd
         k = r.random()
         if d <= 0 or k < .42:
-            return r.choice([self.name(), self.name(), self.name(), str(r.choice([0, 1, 2, 10, 305])), r.choice(['1.5', '0.25', '10.0']),
+            return r.choice([self.name(), self.name(), self.name(), str(r.choice([0, 1, 2, 10, 305])), r.choice(['1.5', '0.25', '10.0', '1e3', '1e-9', '6E23', '2.5e2', '0x1F', '0.5']),
                              r.choice(["'s'", '"t u"', "''", "'a\\'b'"]), 'True', 'False', 'None'])
         if k < .5:
             return '[' + ', '.join(('*' + self.primary(0) if r.random() < .1 else self.expr(d - 1)) for _ in range(r.randint(0, 3))) + ']'
@@ -215,7 +215,12 @@ class NG:
         if in_class and self.opts.get('classmethod_not_first') and 'classmethod' in decos:
             decos.reverse()
         defaulted = False
-        for nm in r.sample(NAMES, r.randint(0, 3)):
+        later = r.sample(NAMES, r.randint(0, 3))
+        if r.random() < .12 and later:
+            later[r.randrange(len(later))] = r.choice([x for x in ['self', 'cls'] if x not in params])       # an ordinary parameter that happens to be called self / cls, not in first position
+            if not params:
+                later.insert(0, self.name())
+        for nm in later:
             defaulted = defaulted or r.random() < .3
             params.append('%s%s%s' % (nm, ': ' + self.typ() if r.random() < .9 else '', ' = ' + self.expr(1) if defaulted else ''))
         if r.random() < .1:
